@@ -273,7 +273,7 @@ impl Property for C07 {
         Ok(())
     }
     fn rule(&self) -> String {
-        "byte strings decoded from tapes (byte-level mutations of generated valid documents with an XML token dictionary, raw bytes, nesting chains up to depth 260, tiny fragments) fed as into_struct(B1), extend_struct(B2), ... through &[u8], BufReader capacities 1..8192 and a chunked BufRead (1,2,3,7,64,4096 bytes per fill), with trim_text / expand_empty_elements / check_end_names in all combinations; every Ok result is rendered with generated options under both sort orders. Oracle: every call returns (catch_unwind); a supervising process turns a crash signal (stack overflow, abort) or a case running longer than 20 s into a violation with the offending tapes. Inputs nested deeper than 200 (by an independent pass over the reader events) are outside the statement and skipped (counted). Non-trivial = the default reader emits three or more events for the input; distinct by hash of input bytes and reader configuration. Small-scope exhaustive part: all 672 400 histories parse(I1), extend(I2) over inputs of up to three top-level fragments from nine (multi-root inputs included). The committed regression corpus (/verif/corpus/bytes) is replayed through 5 readers x 8 flag combinations.".into()
+        "byte strings decoded from tapes (byte-level mutations of generated valid documents with an XML token dictionary, raw bytes, nesting chains up to depth 260, tiny fragments, multi-root fragment sequences, one parent with 21..80 combinatorially named children and up to 40 attributes) fed as into_struct(B1), extend_struct(B2), ... through &[u8], BufReader capacities 1..8192 and a chunked BufRead (1,2,3,7,64,4096 bytes per fill), with trim_text / expand_empty_elements / check_end_names in all combinations; every Ok result is rendered with generated options under both sort orders. Oracle: every call returns (catch_unwind); a supervising process turns a crash signal (stack overflow, abort) or a case running longer than 20 s into a violation with the offending tapes. Inputs nested deeper than 200 (by an independent pass over the reader events) are outside the statement and skipped (counted). Non-trivial = the default reader emits three or more events for the input; distinct by hash of input bytes and reader configuration. Small-scope exhaustive part: all 672 400 histories parse(I1), extend(I2) over inputs of up to three top-level fragments from nine (multi-root inputs included). The committed regression corpus (/verif/corpus/bytes) is replayed through 5 readers x 8 flag combinations.".into()
     }
     fn assumptions(&self) -> Vec<String> {
         vec![
@@ -299,6 +299,7 @@ impl Property for C07 {
             ("cfg.trim_text", 10000),
             ("cfg.check_end_names=false", 10000),
             ("gen.fragments", 5000),
+            ("gen.many_named_children", 5000),
             ("exhaustive.fragment_histories", 600000),
         ]
     }
